@@ -11,6 +11,7 @@ import (
 	"go/printer"
 	"go/token"
 	"path/filepath"
+	"regexp"
 	"strconv"
 	"strings"
 )
@@ -23,7 +24,13 @@ type skCtx struct {
 	errCtx  bool              // inside `if t, err := dc.NextType(); … || err != nil {`: `err` is that call's error
 	ftypes  map[string]string // field name -> declared type (source text)
 	szNames map[string]bool
+	named   bool   // msgp-generated style: named results, bare returns
+	resName string // slice path, named results: the name of the []byte result (`o`)
+	top     bool   // the function body itself, not a nested block
+	last    bool   // the statement is the last one of its block
 }
+
+func (c *skCtx) inner() *skCtx { c2 := *c; c2.top = false; return &c2 }
 
 func (c *skCtx) src(n ast.Node) string {
 	var b strings.Builder
@@ -41,7 +48,9 @@ func leanStr(s string) string {
 
 func (c *skCtx) unknown(n ast.Node) string { return ".unknown " + leanStr(c.src(n)) }
 
-var knownFields = map[string]bool{"Tag": true, "Timestamp": true, "Record": true, "Options": true, "Entries": true, "EventStream": true}
+var knownFields = map[string]bool{"Tag": true, "Timestamp": true, "Record": true, "Options": true, "Entries": true, "EventStream": true,
+	"MessageType": true, "ClientHostname": true, "SharedKeySalt": true, "SharedKeyHexDigest": true, "Username": true, "Password": true,
+	"AuthResult": true, "Reason": true, "ServerHostname": true}
 
 func fld(name string) string {
 	if knownFields[name] {
@@ -61,6 +70,14 @@ func (c *skCtx) recvField(e ast.Expr) (string, bool) {
 		return "", false
 	}
 	return se.Sel.Name, true
+}
+
+var zbName = regexp.MustCompile(`^zb[0-9]+$`)
+
+// the count variable: `sz` in the hand-written decoders, `zb0001` … in msgp-generated code
+func isSzVar(e ast.Expr) bool {
+	id, ok := e.(*ast.Ident)
+	return ok && (id.Name == "sz" || zbName.MatchString(id.Name))
 }
 
 func isIdent(e ast.Expr, name string) bool {
@@ -109,13 +126,13 @@ func (c *skCtx) primCall(e ast.Expr) (prim string, dst string, ok bool) {
 			return "", "", false
 		}
 		table = map[string]string{"ReadArrayHeader": ".arrayHeader", "ReadString": ".str", "ReadInt64": ".int64", "ReadIntf": ".intf",
-			"ReadExtension": ".eventTime", "ReadBytes": ".bin", "ReadNil": ".nil"}
+			"ReadExtension": ".eventTime", "ReadBytes": ".bin", "ReadNil": ".nil", "ReadBool": ".bool"}
 	} else {
 		if !isIdent(se.X, "msgp") {
 			return "", "", false
 		}
 		table = map[string]string{"ReadArrayHeaderBytes": ".arrayHeader", "ReadStringBytes": ".str", "ReadInt64Bytes": ".int64",
-			"ReadIntfBytes": ".intf", "ReadExtensionBytes": ".eventTime", "ReadBytesBytes": ".bin", "ReadNilBytes": ".nil"}
+			"ReadIntfBytes": ".intf", "ReadExtensionBytes": ".eventTime", "ReadBytesBytes": ".bin", "ReadNilBytes": ".nil", "ReadBoolBytes": ".bool"}
 		if len(args) == 0 || !isIdent(args[0], c.in) {
 			return "", "", false
 		}
@@ -175,8 +192,8 @@ func (c *skCtx) lhsDst(lhs []ast.Expr, tok token.Token) (dst string, ok bool) {
 	if n == tail {
 		return "", true
 	}
-	if id, isId := lhs[0].(*ast.Ident); isId {
-		if id.Name == "sz" {
+	if _, isId := lhs[0].(*ast.Ident); isId {
+		if isSzVar(lhs[0]) {
 			return "sz", true
 		}
 		return "", false
@@ -211,6 +228,36 @@ func (c *skCtx) returnsErr(s ast.Stmt) bool {
 		return true
 	}
 	return false
+}
+
+// errBody: the body of an `if err != nil`: one return that carries err, or (named results) `[err = msgp.WrapError(err, …);] return`
+func (c *skCtx) errBody(b *ast.BlockStmt) bool {
+	if b == nil {
+		return false
+	}
+	l := b.List
+	if len(l) == 1 && c.returnsErr(l[0]) {
+		return true
+	}
+	if !c.named {
+		return false
+	}
+	if len(l) == 2 {
+		as, ok := l[0].(*ast.AssignStmt)
+		if !ok || len(as.Lhs) != 1 || len(as.Rhs) != 1 || !isIdent(as.Lhs[0], "err") || as.Tok != token.ASSIGN {
+			return false
+		}
+		call, ok := as.Rhs[0].(*ast.CallExpr)
+		if !ok || !isSel(call.Fun, "msgp", "WrapError") || len(call.Args) < 1 || !isIdent(call.Args[0], "err") {
+			return false
+		}
+		l = l[1:]
+	}
+	if len(l) != 1 {
+		return false
+	}
+	r, ok := l[0].(*ast.ReturnStmt)
+	return ok && len(r.Results) == 0
 }
 
 func isErrNotNil(e ast.Expr) bool {
@@ -265,7 +312,7 @@ func natLit(e ast.Expr) (string, bool) {
 
 func szCmp(e ast.Expr, op token.Token) (string, bool) {
 	be, ok := e.(*ast.BinaryExpr)
-	if !ok || be.Op != op || !isIdent(be.X, "sz") {
+	if !ok || be.Op != op || !isSzVar(be.X) {
 		return "", false
 	}
 	return natLit(be.Y)
@@ -281,6 +328,9 @@ func (c *skCtx) cond(e ast.Expr) (string, bool) {
 		if ok1 && ok2 {
 			return "(.szNotIn " + a + " " + b + ")", true
 		}
+	}
+	if v, ok := szCmp(e, token.NEQ); ok {
+		return "(.szNe " + v + ")", true
 	}
 	if c.errCtx && isErrNotNil(e) {
 		return ".nextErr", true
@@ -314,9 +364,23 @@ func (c *skCtx) block(ss []ast.Stmt) []string {
 		case *ast.AssignStmt:
 			// x, err := prim(); if err != nil { return …err… }
 			if r, ok := c.readStmt(st); ok && i+1 < len(ss) {
-				if nx, isIf := ss[i+1].(*ast.IfStmt); isIf && nx.Init == nil && nx.Else == nil && isErrNotNil(nx.Cond) {
-					if body := onlyStmt(nx.Body); body != nil && c.returnsErr(body) {
-						out = append(out, r)
+				if nx, isIf := ss[i+1].(*ast.IfStmt); isIf && nx.Init == nil && nx.Else == nil && isErrNotNil(nx.Cond) && c.errBody(nx.Body) {
+					out = append(out, r)
+					i++
+					continue
+				}
+			}
+			if c.named && len(st.Lhs) == 1 && len(st.Rhs) == 1 && st.Tok == token.ASSIGN && i+1 < len(ss) {
+				if r, isR := ss[i+1].(*ast.ReturnStmt); isR && len(r.Results) == 0 {
+					// err = msgp.ArrayError{…}; return
+					if cl, isCl := st.Rhs[0].(*ast.CompositeLit); isCl && isIdent(st.Lhs[0], "err") && isSel(cl.Type, "msgp", "ArrayError") {
+						out = append(out, ".retErr")
+						i++
+						continue
+					}
+					// o = bts; return   (the last two statements: every err was checked, so err is nil)
+					if !c.stream && c.top && i+2 == len(ss) && isIdent(st.Lhs[0], c.resName) && isIdent(st.Rhs[0], c.in) {
+						out = append(out, ".retOk")
 						i++
 						continue
 					}
@@ -347,11 +411,9 @@ func (c *skCtx) block(ss []ast.Stmt) []string {
 			}
 			if as, ok := st.Init.(*ast.AssignStmt); ok {
 				// if dst, bits, err = prim(bits); err != nil { return bits, …err… }
-				if r, isRead := c.readStmt(as); isRead && isErrNotNil(st.Cond) {
-					if body := onlyStmt(st.Body); body != nil && c.returnsErr(body) {
-						out = append(out, r)
-						continue
-					}
+				if r, isRead := c.readStmt(as); isRead && isErrNotNil(st.Cond) && c.errBody(st.Body) {
+					out = append(out, r)
+					continue
 				}
 				// the look at the next type
 				if len(as.Rhs) == 1 && as.Tok == token.DEFINE {
@@ -361,12 +423,12 @@ func (c *skCtx) block(ss []ast.Stmt) []string {
 							len(as.Lhs) == 1 && isIdent(as.Lhs[0], "t")
 						streamNT := c.stream && isSel(call.Fun, c.in, "NextType") && len(call.Args) == 0 && len(as.Lhs) == 2 && isIdent(as.Lhs[0], "t")
 						if (sliceNT || (streamNT && isIdent(as.Lhs[1], "_"))) && isTNil(st.Cond) {
-							out = append(out, ".ite .nextNil ["+strings.Join(c.block(st.Body.List), ", ")+"]")
+							out = append(out, ".ite .nextNil ["+strings.Join(c.inner().block(st.Body.List), ", ")+"]")
 							continue
 						}
 						if streamNT && isIdent(as.Lhs[1], "err") {
 							if be, isBe := st.Cond.(*ast.BinaryExpr); isBe && be.Op == token.LOR && isTNil(be.X) && isErrNotNil(be.Y) {
-								c2 := *c
+								c2 := *c.inner()
 								c2.errCtx = true
 								out = append(out, ".ite .nextNilOrErr ["+strings.Join(c2.block(st.Body.List), ", ")+"]")
 								continue
@@ -382,12 +444,14 @@ func (c *skCtx) block(ss []ast.Stmt) []string {
 				continue
 			}
 			if cd, ok := c.cond(st.Cond); ok {
-				out = append(out, ".ite "+cd+" ["+strings.Join(c.block(st.Body.List), ", ")+"]")
+				out = append(out, ".ite "+cd+" ["+strings.Join(c.inner().block(st.Body.List), ", ")+"]")
 				continue
 			}
 			out = append(out, c.unknown(s))
 		case *ast.ReturnStmt:
-			out = append(out, c.ret(st))
+			c2 := *c
+			c2.last = i == len(ss)-1
+			out = append(out, c2.ret(st))
 		default:
 			out = append(out, c.unknown(s))
 		}
@@ -396,6 +460,9 @@ func (c *skCtx) block(ss []ast.Stmt) []string {
 }
 
 func (c *skCtx) ret(r *ast.ReturnStmt) string {
+	if c.named && c.stream && c.top && c.last && len(r.Results) == 0 {
+		return ".retOk" // `return` with the named result err, which every read above left nil
+	}
 	want := 2
 	if c.stream {
 		want = 1
@@ -790,9 +857,27 @@ func codecSkeletons(repo string) string {
 				fmt.Fprintf(&b, "/-- %s.%s: not found in the source (or not with one parameter) -/\ndef %s : List Stmt := [.unknown \"method not found\"]\n\n", ty.goName, m, name)
 				continue
 			}
-			c := &skCtx{fset: fset, recv: recvNameOf(fd), in: fd.Type.Params.List[0].Names[0].Name, stream: m == "DecodeMsg", ftypes: ft}
+			c := &skCtx{fset: fset, recv: recvNameOf(fd), in: fd.Type.Params.List[0].Names[0].Name, stream: m == "DecodeMsg", ftypes: ft, top: true}
 			body := c.block(fd.Body.List)
 			fmt.Fprintf(&b, "/-- `(*%s).%s`, %s -/\ndef %s : List Stmt := [\n  %s]\n\n", ty.goName, m,
+				fset.Position(fd.Pos()).String()[len(repo)+1:], name, strings.Join(body, ",\n  "))
+		}
+	}
+	b.WriteString("/-! ### msgp-generated tuple decoders (named results, bare returns) -/\n\n")
+	for _, ty := range []string{"Entry", "EntryExt", "Ping", "Pong"} {
+		ft := structFields(files, fset, ty)
+		for _, m := range []string{"UnmarshalMsg", "DecodeMsg"} {
+			name := ty + "_" + m
+			fd := methods[ty+"."+m]
+			if fd == nil || fd.Body == nil || fd.Type.Params == nil || len(fd.Type.Params.List) != 1 || len(fd.Type.Params.List[0].Names) != 1 ||
+				fd.Type.Results == nil || len(fd.Type.Results.List) == 0 || len(fd.Type.Results.List[0].Names) != 1 {
+				fmt.Fprintf(&b, "/-- %s.%s: not found in the source (or not in the generated shape) -/\ndef %s : List Stmt := [.unknown \"method not found\"]\n\n", ty, m, name)
+				continue
+			}
+			c := &skCtx{fset: fset, recv: recvNameOf(fd), in: fd.Type.Params.List[0].Names[0].Name, stream: m == "DecodeMsg", ftypes: ft, top: true,
+				named: true, resName: fd.Type.Results.List[0].Names[0].Name}
+			body := c.block(fd.Body.List)
+			fmt.Fprintf(&b, "/-- `(*%s).%s`, %s -/\ndef %s : List Stmt := [\n  %s]\n\n", ty, m,
 				fset.Position(fd.Pos()).String()[len(repo)+1:], name, strings.Join(body, ",\n  "))
 		}
 	}
